@@ -60,6 +60,19 @@ def cases(tier, seed):
                 # first, then a bit of the body, then nothing)
                 for dr in ([False, True] if tier == 'thorough' else [bool((L + seed) % 2)]):
                     yield dict(convo=name, cut=L, ending=e, kill=None, dribble=dr, seed=seed)
+        # the peer resets the connection right behind a complete PDU (or behind the whole
+        # stream): the PDU is still readable, but the connection is already gone when the
+        # provider acts on it
+        ends_ = []
+        acc = 0
+        for st_ in corp[name]['steps']:
+            if st_[0] in ('peer', 'peer+fin'):
+                for pdu_ in st_[1]:
+                    acc += len(pdu_)
+                    ends_.append(acc)
+        for L in ends_:
+            yield dict(convo=name, cut=L, ending='rst', kill=None, dribble=False, rst_now=True,
+                       seed=seed)
         for k in range(8):
             yield dict(convo=name, cut=None, ending='rst', kill=None, rst_at_send=k, seed=seed)
         if corp[name]['role'] == 'requestor':
@@ -115,6 +128,8 @@ def run_case(case):
         busy = lambda: user.task.kind not in ('q.get',) and not user.task.done
         delivered = 0
         cut = case['cut']
+        rst_now = bool(case.get('rst_now')) and case['ending'] == 'rst' and cut is not None
+        rst_done = False
         ended = False
         user_ended = False
         associated = False
@@ -135,6 +150,13 @@ def run_case(case):
                     if rig.prov_sock is None:
                         break
                 for pdu in st[1]:
+                    if rst_now and delivered + len(pdu) == cut:
+                        rig.peer_bytes(pdu)
+                        delivered += len(pdu)
+                        rig.peer_rst_behind()
+                        rst_done = True
+                        ended = True
+                        break
                     if cut is not None and delivered + len(pdu) > cut:
                         part = pdu[:cut - delivered]
                         if part:
@@ -188,7 +210,7 @@ def run_case(case):
             if rig.prov_sock is not None and not rig.prov_sock.rx.fin and not gone_at_cut:
                 if ending == 'fin':
                     rig.peer_fin()
-                elif ending == 'rst':
+                elif ending == 'rst' and not rst_done:
                     rig.peer_rst()
             rig.settle(extra=busy)
             if ending == 'chatter':
